@@ -152,10 +152,24 @@ def oracle(case, rec):
         inner = kap[1:-1]
         if np.all(np.isfinite(inner)):
             mx = float(inner.max())
-            rec.check(kap[int(k)] >= mx * (1 - 1e-12), 'curvature:not-the-interior-maximum',
-                      'k=%d kappa=%r max=%r at %d' % (k, float(kap[int(k)]), mx, int(np.argmax(inner)) + 1))
+            # rounding-noise allowance of kappa_i, from the conditioning of the second divided difference
+            # (each quotient (y_j+1 - y_j)/h carries an absolute error ~ eps*(|y_j+1|+|y_j|)/h): an
+            # implementation that evaluates the same formula in another order may rank values that differ
+            # by less than this either way (all-collinear curves: every kappa is pure noise)
+            ay = np.abs(y)
+            h = np.diff(x)
+            with np.errstate(all='ignore'):
+                q = (ay[1:] + ay[:-1]) / h
+                e2 = 2.0 * (q[1:] + q[:-1]) / (x[2:] - x[:-2])
+                tol = np.zeros(n)
+                tol[1:-1] = 16 * lib.EPS * e2 / ((1.0 + g1[1:-1] ** 2.0) ** 1.5) + 1e-12 * inner
+            if not np.all(np.isfinite(tol)):
+                tol = np.zeros(n)
+            bar = float(np.max(inner - tol[1:-1]))
+            rec.check(kap[int(k)] + tol[int(k)] >= bar, 'curvature:not-the-interior-maximum',
+                      'k=%d kappa=%r (+-%r) max=%r at %d' % (k, float(kap[int(k)]), float(tol[int(k)]), mx, int(np.argmax(inner)) + 1))
             srt = np.sort(inner)
-            if len(srt) >= 2 and srt[-2] < mx * (1 - 1e-6):
+            if len(srt) >= 2 and srt[-2] < mx * (1 - 1e-6) and mx > 4 * float(np.max(tol)):
                 decided += 1
         else:
             rec.tag('curvature:nonfinite')
